@@ -172,7 +172,7 @@ pub fn run_c14(sc: &HistSc, st: &mut Stats) -> super::c06::HistOutcome {
     for (step, op) in sc.ops.iter().enumerate() {
         // keep the history's own hash configuration for objects the history creates
         set_hash_config(hash_mode_of(&sc.hash_mode), sc.hash_seed ^ (step as u64) << 32);
-        match apply_real(op, &mut regs, &mut maps) {
+        match apply_real(op, &mut regs, &mut maps, step) {
             Applied::Ok(_) => {}
             Applied::Panicked(_) => { st.note("an object operation panicked (a C06 matter); run abandoned", 0, || op.to_json().to_string_compact()); break; }
         }
